@@ -246,6 +246,25 @@ pub fn shapes() -> Vec<Shape> {
         s.conditional_enforce_equal(&a, &c)?;
         Ok(())
     });
+    sh!("conditionally_select over lazily decoded operands (new_input / AllocVar<Fq>), witness condition", |e| e.els.len() * 2, |e, i, cs| {
+        let n = e.els.len();
+        let a = ElementVar::new_input(cs.clone(), || Ok(e.els[i % n].1))?;
+        let b = <ElementVar as AllocVar<Fq, Fq>>::new_witness(cs.clone(), || Ok(e.els[(i * 3 + 1) % n].1.vartime_compress_to_field()))?;
+        let c = Boolean::new_witness(cs.clone(), || Ok(i >= n))?;
+        let s1 = ElementVar::conditionally_select(&c, &a, &b)?;
+        let s2 = ElementVar::conditionally_select(&c.not(), &a, &b)?;
+        s1.enforce_not_equal(&s2).ok();
+        Ok(())
+    });
+    sh!("negate / a - b / is_eq over lazily decoded operands", |e| e.els.len(), |e, i, cs| {
+        let n = e.els.len();
+        let a = ElementVar::new_input(cs.clone(), || Ok(e.els[i].1))?;
+        let b = ElementVar::new_input(cs.clone(), || Ok(e.els[(i * 7 + 2) % n].1))?;
+        let _ = a.negate()?;
+        let _ = a.clone() - b.clone();
+        let _ = a.is_eq(&b)?;
+        Ok(())
+    });
     sh!("scalar_mul_le (witness bits)", |e| e.els.len().min(12) * e.scalars.len(), |e, i, cs| {
         let a = ElementVar::new_witness(cs.clone(), || Ok(e.els[i % e.els.len().min(12)].1))?;
         let k = &e.scalars[i / e.els.len().min(12)].1;
@@ -264,7 +283,7 @@ pub fn shapes() -> Vec<Shape> {
 }
 
 fn rng(seed: u64) -> Rng15 {
-    Rng15(crate::c06::Scripted { script: vec![], pos: 0, ctr: seed ^ 0xC15C15, draws: 0 })
+    Rng15(crate::c06::Scripted { script: vec![], pos: 0, ctr: seed ^ 0xC15C15, draws: 0, plain_counter: false })
 }
 pub struct Rng15(crate::c06::Scripted);
 impl ark_std::rand::RngCore for Rng15 {
